@@ -320,12 +320,15 @@ func c30IsHexLiteral(s string) bool {
 // ---------------------------------------------------------------- case
 
 type c30Case struct {
-	ColTypes []string    // declared type per column ("" = untyped)
-	Rows     [][]c30Val  // values per row
-	Named    []bool      // row inserted with named parameters
-	Params   []c30Val    // values for the parameter/expression query
-	Endpoint string      // "query" | "request"
-	RowOrder string      // "ASC" | "DESC"
+	ColTypes  []string   // declared type per column ("" = untyped)
+	Rows      [][]c30Val // values per row
+	Named     []bool     // row inserted with named parameters
+	Params    []c30Val   // values for the parameter/expression query
+	Returning bool       // last INSERT carries RETURNING for all columns
+	ExecAssoc bool       // /db/execute answered in associative form
+	Pretty    bool       // ask for pretty-printed answers
+	Endpoint  string     // "query" | "request"
+	RowOrder  string     // "ASC" | "DESC"
 }
 
 func c30GenCase(rt *rapid.T) c30Case {
@@ -349,6 +352,9 @@ func c30GenCase(rt *rapid.T) c30Case {
 	}
 	c.Endpoint = rapid.SampledFrom([]string{"query", "query", "request"}).Draw(rt, "endpoint")
 	c.RowOrder = rapid.SampledFrom([]string{"ASC", "DESC"}).Draw(rt, "order")
+	c.Returning = rapid.IntRange(0, 2).Draw(rt, "returning") == 0
+	c.ExecAssoc = rapid.Bool().Draw(rt, "execassoc")
+	c.Pretty = rapid.IntRange(0, 3).Draw(rt, "pretty") == 0
 	return c
 }
 
@@ -389,6 +395,9 @@ func (c c30Case) insertBody() string {
 			}
 		}
 		sqlText := fmt.Sprintf("INSERT INTO %s(id,%s) VALUES(%d,%s)", c.table(), strings.Join(names, ","), r+1, strings.Join(ph, ","))
+		if c.Returning && r == len(c.Rows)-1 {
+			sqlText += " RETURNING " + strings.Join(names, ", ")
+		}
 		if c.Named[r] {
 			var kv []string
 			for i, v := range row {
@@ -437,7 +446,7 @@ func (c c30Case) paramSQL() (string, []string) {
 
 func (c c30Case) render() string {
 	var sb strings.Builder
-	fmt.Fprintf(&sb, "endpoint=%s order=%s body=%s params=[", c.Endpoint, c.RowOrder, c.insertBody())
+	fmt.Fprintf(&sb, "endpoint=%s order=%s execassoc=%v pretty=%v body=%s params=[", c.Endpoint, c.RowOrder, c.ExecAssoc, c.Pretty, c.insertBody())
 	for i, p := range c.Params {
 		if i > 0 {
 			sb.WriteString(",")
@@ -461,6 +470,11 @@ type c30Table struct {
 
 // c30Decode extracts result #idx of an API answer in array or associative form.
 func c30Decode(body []byte, assoc bool, names []string) (*c30Table, string) {
+	return c30DecodeAt(body, assoc, names, 0, 1)
+}
+
+// c30DecodeAt extracts result #idx of n from an API answer.
+func c30DecodeAt(body []byte, assoc bool, names []string, idx, n int) (*c30Table, string) {
 	dec := json.NewDecoder(bytes.NewReader(body))
 	dec.UseNumber()
 	var top map[string]any
@@ -471,10 +485,10 @@ func c30Decode(body []byte, assoc bool, names []string) (*c30Table, string) {
 		return nil, fmt.Sprintf("answer carries error %v", e)
 	}
 	results, ok := top["results"].([]any)
-	if !ok || len(results) != 1 {
-		return nil, fmt.Sprintf("expected exactly one result: %.300s", body)
+	if !ok || len(results) != n {
+		return nil, fmt.Sprintf("expected %d results: %.300s", n, body)
 	}
-	res, ok := results[0].(map[string]any)
+	res, ok := results[idx].(map[string]any)
 	if !ok {
 		return nil, fmt.Sprintf("result is not an object: %.300s", body)
 	}
@@ -711,7 +725,15 @@ func c30Check(rt *rapid.T, rec *vstat.Rec, env *c30Env, c c30Case) {
 	}
 
 	// 1. store through the API
-	code, body := env.post("/db/execute?transaction", c.insertBody())
+	execPath := "/db/execute?transaction"
+	if c.ExecAssoc {
+		execPath += "&associative"
+	}
+	if c.Pretty {
+		execPath += "&pretty"
+	}
+	code, body := env.post(execPath, c.insertBody())
+	execBody := body
 	if code != http.StatusOK {
 		fail(&c30Failure{"C30/param-rejected", fmt.Sprintf("execute answered HTTP %d: %.300s", code, body)})
 		return
@@ -795,6 +817,34 @@ func c30Check(rt *rapid.T, rec *vstat.Rec, env *c30Env, c c30Case) {
 		return
 	}
 
+	// 2b. rows answered by INSERT ... RETURNING are the stored row
+	if c.Returning {
+		var cn, src []string
+		for i, t := range c.ColTypes {
+			cn = append(cn, fmt.Sprintf("c%d", i))
+			st := strings.ToLower(t)
+			if st == "" {
+				st = "untyped"
+			}
+			src = append(src, st+"-column")
+		}
+		rraw, err := c30RawQuery(rdb, fmt.Sprintf("SELECT %s FROM %s WHERE id=%d", strings.Join(cn, ", "), c.table(), len(c.Rows)))
+		if err != nil {
+			rt.Skipf("infrastructure: raw select: %v", err)
+		}
+		rec.Label("returning")
+		fname := fmt.Sprintf("execute-returning assoc=%v", c.ExecAssoc)
+		tb, msg := c30DecodeAt(execBody, c.ExecAssoc, cn, 1+len(c.Rows), 2+len(c.Rows))
+		if msg != "" {
+			fail(&c30Failure{"C30/returning-error", fname + ": " + msg})
+			return
+		}
+		if f := c30CompareTable(tb, rraw, src, false, fname, known); f != nil {
+			fail(f)
+			return
+		}
+	}
+
 	// 3. read-back of columns and expressions, in the four result forms
 	q, names, sources := c.selectSQL()
 	raw, err := c30RawQuery(rdb, q)
@@ -810,6 +860,9 @@ func c30Check(rt *rapid.T, rec *vstat.Rec, env *c30Env, c c30Case) {
 		}
 		if form.arr {
 			path += "&blob_array"
+		}
+		if c.Pretty {
+			path += "&pretty"
 		}
 		code, body := env.post(path, "["+c30JSONString(q, false)+"]")
 		fname := fmt.Sprintf("%s assoc=%v blob_array=%v", c.Endpoint, form.assoc, form.arr)
